@@ -2,6 +2,8 @@
 refactoring of equiv/ applied (default: all), in parallel; writes equiv/tests_status.json.  A refactoring that fails a test
 is not behaviour preserving and must leave the corpus."""
 import glob, json, os, shutil, subprocess, sys, tempfile
+for _v in ("OMP_NUM_THREADS", "OPENBLAS_NUM_THREADS", "MKL_NUM_THREADS"):
+    os.environ.setdefault(_v, "1")     # 16 pytest runs with 16 BLAS threads each starve the machine
 from multiprocessing import Pool
 
 
